@@ -43,7 +43,9 @@ RULE = ('one case = one application (context classes C<B<A, a class E used both 
         'registration (new view, replacement, predicate sibling -> multiview, exception view, notfound view), '
         'registration pre-empted after its m-th adapter mutation by a whole request, burst of distinct missing URLs, burst of 300 distinct odd requests '
         '(URLs / Accept headers / query strings / header values) with a container census}; views carry accept= and request_method predicates, '
-        'requests carry Accept headers from a pool and a method, registrations add members to or replace members of existing multiviews; '
+        'requests carry Accept headers from a pool and a method, registrations add members to or replace members of existing multiviews; views may be registered for interfaces IFoo/IBar and an '
+        'op `ifc` changes what a context class / its instances provide between requests (classImplements, classImplementsOnly, alsoProvides, '
+        'noLongerProvides, directlyProvides); '
         'a case is non-trivial when the same (context, view name) is looked up through two request interfaces, a registration lands inside an in-progress lookup or a lookup lands inside a '
         'registration, or a request is served from a warm cache entry, or a registration follows a warm-up of the same '
         'URL; distinct = distinct canonical case JSON')
@@ -68,12 +70,71 @@ class E(Exception):
     """used both as a traversal context (?ctx=E) and as the exception raised by the view `boom`"""
 
 
-CLS = {'A': A, 'B': B, 'C': C, 'E': E}
+class IFoo(Interface):
+    """an interface a context class / instance may start or stop providing between two requests"""
+
+
+class IBar(IFoo):
+    pass
+
+
+CLS = {'A': A, 'B': B, 'C': C, 'E': E, 'IFoo': IFoo, 'IBar': IBar}
+IFACES = {'IFoo': IFoo, 'IBar': IBar}
 NAMES = ['', 'x', 'y']
+IFC_OPS = []              # the interface-change operations applied since the last reset (part of the oracle memo key)
+INST = {}                 # class name -> interfaces directly provided by every context instance of that class
+
+
+def reset_ifaces():
+    """back to pristine declarations: new implementedBy specifications for all context classes"""
+    # unconditionally: every case starts from specification objects no earlier case has used, so that a case is
+    # self-contained (replayable alone) even when the code under test keeps process-wide state keyed on them
+    for cls in (C, B, A, E):
+        for attr in ('__implemented__', '__providedBy__', '__provides__'):
+            if attr in cls.__dict__:
+                try:
+                    delattr(cls, attr)
+                except Exception:
+                    pass
+    del IFC_OPS[:]
+    INST.clear()
+
+
+def apply_ifc(op):
+    """change what a context class / its instances provide (zope.interface declarations API)"""
+    from zope.interface import classImplements, classImplementsOnly
+    ifs = [IFACES[n] for n in op.get('ifaces', [])]
+    how, cls = op['how'], op['cls']
+    if how == 'classImplements':
+        classImplements(CLS[cls], *ifs)
+    elif how == 'classImplementsOnly':
+        classImplementsOnly(CLS[cls], *ifs)
+    elif how == 'alsoProvides':
+        INST[cls] = list(INST.get(cls, [])) + [i for i in ifs if i not in INST.get(cls, [])]
+    elif how == 'noLongerProvides':
+        INST[cls] = [i for i in INST.get(cls, []) if i not in ifs]
+    elif how == 'directlyProvides':
+        INST[cls] = list(ifs)
+    else:
+        raise ValueError(how)
+    IFC_OPS.append(json.dumps(op, sort_keys=True))
 
 
 def _root_factory(request):
-    return CLS.get(request.params.get('ctx', 'C'), C)()
+    from zope.interface import directlyProvides, alsoProvides, noLongerProvides
+    name = request.params.get('ctx', 'C')
+    cls = CLS.get(name, C)
+    if not isinstance(cls, type):
+        cls, name = C, 'C'
+    obj = cls()
+    ifs = INST.get(name)
+    if ifs:
+        # the instance-level API, exercised on every context object: directlyProvides, then alsoProvides one by one,
+        # then noLongerProvides of nothing (a no-op that still rebuilds the declaration)
+        directlyProvides(obj, ifs[0])
+        for i in ifs[1:]:
+            alsoProvides(obj, i)
+    return obj
 
 
 _VIEWS = {}
@@ -171,7 +232,7 @@ _FRESH = {}
 
 def fresh_response(regs, q):
     """the oracle: a freshly built application holding the same registrations, first request ever"""
-    key = json.dumps([regs, q], sort_keys=True)
+    key = json.dumps([regs, q, IFC_OPS], sort_keys=True)
     r = _FRESH.get(key)
     if r is None:
         if len(_FRESH) > 200000:
@@ -226,7 +287,8 @@ def _w_find_views(*a, **kw):
     if live is None or live.in_injection or not live.recording:
         return _orig_find_views(*a, **kw)
     call = {'q': (view_classifier or IViewClassifier, request_iface, context_iface, view_name, view_types or VIEW_TYPES),
-            'slots': [], 'inject': None, 'idx': live.req_calls, 'key': None}
+            'slots': [], 'inject': None, 'idx': live.req_calls, 'key': None, 'epoch': live.epoch, 'window': live.split is not None}
+    call['full'] = slots_of(call['q'])                  # the scan order the CURRENT resolution orders give
     live.req_calls += 1
     live.calls.append(call)
     prev, live.cur_call = live.cur_call, call
@@ -237,6 +299,9 @@ def _w_find_views(*a, **kw):
     finally:
         live.cur_call = prev
         call['dict'] = live.snapshot()
+        if call['key'] is not None and call['key'] in call['dict'] and call['slots']:
+            live.key_epoch[call['key']] = live.epoch       # (re)written by this call
+        call['prechange'] = live.prechange(call['key'], call['q'][2])
     return res
 
 
@@ -299,6 +364,7 @@ class IDict(dict):
 
 class Live:
     def __init__(self, init):
+        reset_ifaces()
         self.config = make_config(init)
         self.app = self.config.make_wsgi_app()
         self.reg = reg = self.config.registry
@@ -327,6 +393,7 @@ class Live:
             reg._clear_view_lookup_cache = self.w_clear
         self.deadlock = False
         self.recording = True
+        self.epoch, self.key_epoch, self.changed_at = 0, {}, {}
         if isinstance(getattr(reg, '_view_lookup_cache', None), dict):
             d = IDict(reg._view_lookup_cache)
             d.live = self
@@ -343,6 +410,7 @@ class Live:
         pview._find_views = _w_find_views
 
     def close(self):
+        reset_ifaces()
         _LIVE.pop(id(self.reg), None)
         if not _LIVE:
             pview._find_views = _orig_find_views
@@ -457,6 +525,20 @@ class Live:
         self.applied.append(r)
         return self.modlog[n0:], sp
 
+    def prechange(self, key, ctx_spec):
+        """the entry under `key` was written before the resolution order of its context specification was changed by
+        an interface-change operation (and no clear happened since): the application changed what the key MEANS —
+        the input class excluded by `Cfg.KeyFaithful`"""
+        return key in self.snapshot_raw() and self.key_epoch.get(key, 0) < self.changed_at.get(id(ctx_spec), 0)
+
+    def do_ifc(self, op, specs):
+        before = {id(s): tuple(s.__sro__) for s in specs}
+        apply_ifc(op)
+        self.epoch += 1
+        for s in specs:
+            if tuple(s.__sro__) != before[id(s)]:
+                self.changed_at[id(s)] = self.epoch
+
     def snapshot_raw(self):
         c = getattr(self.reg, '_view_lookup_cache', None)
         return c if isinstance(c, dict) else {}
@@ -527,10 +609,38 @@ def stale_entries(live, trace):
         if q is None:
             out.append('entry under a key no lookup used')
             continue
+        if live.prechange(key, q[2]):
+            continue                                        # its key changed meaning (interface change, no clear since)
         cold = [v for v in (live.o_registered(s[0], s[1], s[2]) for s in slots_of(q)) if v is not None]
         if [id(x) for x in cache[key]] != [id(x) for x in cold]:
             out.append(_qname(q))
     return sorted(set(out))
+
+
+def check_lists(live, i, calls, viol):
+    """the view list found depends only on the registrations in force and the interfaces the request and the context
+    provide AT THAT MOMENT: every lookup that scanned (or hit an entry whose key still means the same) returns the cold
+    scan computed here from the current resolution orders and the adapter registry — independent of any other
+    application in this process"""
+    for c in calls:
+        if c.get('inject') is not None or c.get('window') or 'res' not in c:
+            continue
+        if not c['slots'] and c.get('prechange'):
+            continue
+        cold = [v for v in (live.o_registered(s[0], s[1], s[2]) for s in c['full']) if v is not None]
+        if [id(x) for x in c['res']] != [id(x) for x in cold]:
+            viol.append({'at': i, 'kind': 'lookup-list', 'impl': [getattr(x, '__name__', '?') for x in c['res']],
+                         'expected': [getattr(x, '__name__', '?') for x in cold],
+                         'detail': 'op %d: the lookup %s (%s) returns %r; the registrations in force and the interfaces provided at that moment give %r'
+                                   % (i, _qname(c['q']), 'scanned' if c['slots'] else 'from the cache',
+                                      [getattr(x, '__name__', '?') for x in c['res']], [getattr(x, '__name__', '?') for x in cold])})
+            return
+
+
+def excluded_warm(calls):
+    """a request answered from an entry that was cached before the application changed the interfaces of its context
+    class/instances without any registration (nothing told the registry): outside `Cfg.KeyFaithful`, see notes"""
+    return any((not c['slots']) and c.get('prechange') for c in calls)
 
 
 def mutated_results(live):
@@ -546,10 +656,21 @@ def _run_op(live, i, op, kind, before_regs, trace, viol):
                 if fired:
                     ok.append(fresh_response(list(live.applied), op['req']))
                 trace.append({'op': 'get', 'calls': calls, 'fired': fired, 'resp': resp, 'armed': op.get('inject')})
+                if not fired:
+                    check_lists(live, i, calls, viol)
                 if resp not in ok:
-                    viol.append({'at': i, 'kind': 'response', 'impl': resp, 'expected': ok,
-                                 'detail': 'op %d: the live application answers %r, a freshly built application with the same registrations answers %r'
-                                           % (i, resp, ok)})
+                    if excluded_warm(calls):
+                        trace[-1]['excluded_warm_after_interface_change'] = True
+                    else:
+                        viol.append({'at': i, 'kind': 'response', 'impl': resp, 'expected': ok,
+                                     'detail': 'op %d: the live application answers %r, a freshly built application with the same registrations answers %r'
+                                               % (i, resp, ok)})
+            elif kind == 'ifc':
+                specs = {}
+                for c in live.calls:
+                    specs[id(c['q'][2])] = c['q'][2]
+                live.do_ifc(op, list(specs.values()))
+                trace.append({'op': 'ifc'})
             elif kind == 'reg':
                 mods, _ = live.do_reg(op['reg'])
                 trace.append({'op': 'reg', 'mods': mods, 'dict': live.snapshot()})
@@ -719,13 +840,16 @@ def to_model(trace, live):
     problems = []
     queries = {}
 
-    def qid(q, key=None):
-        if q not in queries:
-            sl = slots_of(q)
-            queries[q] = (len(queries), ids.key(key), [ids.slot(s) for s in sl], sl)
-        elif ids.key(key) != queries[q][1]:
+    def qid(q, key=None, full=None):
+        # a query is the arguments of _find_views TOGETHER WITH the scan order the resolution orders gave when it
+        # ran: after an interface change the same arguments are another query of the model (same cache key)
+        full = slots_of(q) if full is None else full
+        qk = (q, tuple(full))
+        if qk not in queries:
+            queries[qk] = (len(queries), ids.key(key), [ids.slot(s) for s in full], full)
+        elif ids.key(key) != queries[qk][1]:
             problems.append('one query used two different cache keys')
-        return queries[q][0]
+        return queries[qk][0]
 
     def mods_json(mods):
         return [[ids.slot(s), None if v is None else ids.view(v)] for s, v, _old in mods]
@@ -738,8 +862,8 @@ def to_model(trace, live):
 
     def add_calls(calls, armed, fired):
         for c in calls:
-            n = qid(c['q'], c['key'])
-            full = queries[c['q']][3]
+            n = qid(c['q'], c['key'], c.get('full'))
+            full = c.get('full') or slots_of(c['q'])
             if c['slots'] and c['slots'] != full[:len(c['slots'])]:
                 problems.append('observed adapter lookups are not the SRO-product prefix for view name %r' % (c['q'][3],))
             inj = None
@@ -757,13 +881,15 @@ def to_model(trace, live):
             add_calls(t['calls'], t.get('armed'), t['fired'])
         elif t['op'] in ('misses', 'burst'):
             add_calls(t['calls'], None, False)
+        elif t['op'] == 'ifc':
+            continue                                        # no step of the machine: later lookups are other queries
         elif t['op'] == 'reg' or (t['op'] == 'split' and not t['fired']):
             all_mods.extend(t['mods'])
             ops.append({'op': 'reg', 'mods': mods_json(t['mods'])})
             exp.append({'res': [], 'inj': False, 'cur': dict_json(t['dict'])})
         else:
             all_mods.extend(t['mods'])
-            ops.append({'op': 'split', 'mods': mods_json(t['mods']), 'after': t['after'], 'qs': [qid(c['q'], c['key']) for c in t['calls']]})
+            ops.append({'op': 'split', 'mods': mods_json(t['mods']), 'after': t['after'], 'qs': [qid(c['q'], c['key'], c.get('full')) for c in t['calls']]})
             exp.append({'res': [[ids.view(x) for x in c.get('res', [])] for c in t['calls']], 'inj': True,
                         'cur': dict_json(t['dict'])})
     # initial registrations of every slot any query scans: the old value of its first logged mutation, else
@@ -840,7 +966,7 @@ def gen_reg(rng, tag, allow_e=True):
         if rng.random() < 0.4:
             reg['route'] = rng.choice(['g', 'r'])
         return reg
-    ctxs = [None, None, 'A', 'B', 'B', 'C', 'C'] + (['E'] if allow_e else [])
+    ctxs = [None, None, 'A', 'B', 'B', 'C', 'C', 'IFoo', 'IFoo', 'IBar'] + (['E'] if allow_e else [])
     reg = {'kind': 'view', 'tag': tag, 'context': rng.choice(ctxs), 'name': rng.choice(['', '', 'x', 'x', 'y']),
            'param': rng.choice([None, None, None, 'p', 'q'])}
     rt = rng.choice(ROUTES)
@@ -888,6 +1014,14 @@ def gen_req(rng, earlier, allow_e=True):
     if rng.random() < 0.25:
         q['method'] = 'POST'
     return q
+
+
+def gen_ifc(rng):
+    how = rng.choice(['classImplements', 'classImplements', 'classImplementsOnly', 'alsoProvides', 'alsoProvides',
+                      'noLongerProvides', 'directlyProvides'])
+    ifs = rng.choice([['IFoo'], ['IFoo'], ['IBar'], ['IFoo', 'IBar'], []]) if how in ('classImplementsOnly', 'directlyProvides') \
+        else rng.choice([['IFoo'], ['IFoo'], ['IBar']])
+    return {'op': 'ifc', 'how': how, 'cls': rng.choice(['A', 'B', 'C', 'C']), 'ifaces': ifs}
 
 
 def gen_sibling(rng, tag, regs):
@@ -979,6 +1113,14 @@ def gen_case(rng, maxops=8):
             ops.append({'op': 'split', 'reg': aimed_reg(q), 'after': rng.choice([0, 0, 1, 1, 2, 3]), 'req': q})
             if rng.random() < 0.7 and len(ops) < n:
                 ops.append({'op': 'get', 'req': dict(q)})
+        elif r < 0.93:
+            # what a context class / its instances provide changes between two requests; the next lookups come after a
+            # miss, after a clearing registration, or (counted, not judged: see notes) on a warm entry
+            ops.append(gen_ifc(rng))
+            if rng.random() < 0.5 and len(ops) < n:
+                ops.append({'op': 'reg', 'reg': aimed_reg(None)})
+            if earlier and len(ops) < n:
+                ops.append({'op': 'get', 'req': dict(rng.choice(earlier))})
         elif r < 0.975:
             ops.append({'op': 'misses', 'n': rng.choice([3, 5, 8]), 'ctx': rng.choice(['A', 'C'])})
         else:
@@ -1006,6 +1148,35 @@ def enumerate_replace():
             yield {'init': init, 'ops': [{'op': 'reg', 'reg': reg}, {'op': 'get', 'req': q}]}
             yield {'init': init, 'ops': [{'op': 'get', 'req': q}, {'op': 'get', 'req': reqs[0]}, {'op': 'reg', 'reg': reg},
                                          {'op': 'get', 'req': reqs[0]}, {'op': 'get', 'req': q}]}
+
+
+def enumerate_ifc():
+    """what the context provides changes between two requests, by each of the five declaration calls, at class and
+    instance level, adding and removing; lookups before (miss / hit / none) and after, the latter directly (after a
+    miss) or after a clearing registration (unrelated or for the same name)"""
+    S = {'kind': 'view', 'tag': 'S', 'context': 'IFoo', 'name': 'x'}
+    G = {'kind': 'view', 'tag': 'G', 'context': None, 'name': 'x'}
+    T = {'kind': 'view', 'tag': 'T', 'context': 'IBar', 'name': 'x'}
+    q = {'name': 'x', 'ctx': 'C'}
+    adds = [{'op': 'ifc', 'how': 'classImplements', 'cls': 'C', 'ifaces': ['IFoo']},
+            {'op': 'ifc', 'how': 'classImplements', 'cls': 'A', 'ifaces': ['IBar']},
+            {'op': 'ifc', 'how': 'classImplementsOnly', 'cls': 'C', 'ifaces': ['IFoo']},
+            {'op': 'ifc', 'how': 'alsoProvides', 'cls': 'C', 'ifaces': ['IFoo']},
+            {'op': 'ifc', 'how': 'directlyProvides', 'cls': 'C', 'ifaces': ['IBar']}]
+    removes = [{'op': 'ifc', 'how': 'classImplementsOnly', 'cls': 'C', 'ifaces': []},
+               {'op': 'ifc', 'how': 'noLongerProvides', 'cls': 'C', 'ifaces': ['IFoo']},
+               {'op': 'ifc', 'how': 'directlyProvides', 'cls': 'C', 'ifaces': []},
+               {'op': 'ifc', 'how': 'classImplementsOnly', 'cls': 'B', 'ifaces': []}]
+    mids = [[], [{'op': 'reg', 'reg': {'kind': 'view', 'tag': 'U', 'context': 'A', 'name': 'y'}}],
+            [{'op': 'reg', 'reg': {'kind': 'view', 'tag': 'V', 'context': 'B', 'name': 'x', 'param': 'p'}}]]
+    get = {'op': 'get', 'req': q}
+    for init in ([S], [G, S], [G, S, T], [{'kind': 'view', 'tag': 'SB', 'context': 'B', 'name': 'x'}, S]):
+        for pre in ([], [get]):
+            for a in adds:
+                for mid in mids:
+                    yield {'init': init, 'ops': pre + [a] + mid + [get, get]}
+                    for r in removes:
+                        yield {'init': init, 'ops': [a] + pre + [r] + mid + [get]}
 
 
 def enumerate_multiview():
@@ -1118,6 +1289,10 @@ def features(case, info):
             f.add('miss_burst')
         if t['op'] == 'burst':
             f.add('odd_burst')
+        if t['op'] == 'ifc':
+            f.add('interface_change')
+        if t.get('excluded_warm_after_interface_change'):
+            f.add('EXCLUDED_warm_hit_after_interface_change')
         if t['op'] == 'get' and t.get('accept_on_multiview'):
             f.add('accept_header_on_multiview')
     if collisions(trace):
@@ -1131,7 +1306,7 @@ def features(case, info):
     return f
 
 
-NONTRIVIAL = {'same_context_and_name_through_two_request_ifaces', 'warm_hit', 'inject_scan', 'inject_probe', 'inject_write', 'lookup_inside_registration', 'registration_after_warmup'}
+NONTRIVIAL = {'interface_change', 'same_context_and_name_through_two_request_ifaces', 'warm_hit', 'inject_scan', 'inject_probe', 'inject_write', 'lookup_inside_registration', 'registration_after_warmup'}
 
 
 def mixed_kind(m):
@@ -1195,13 +1370,13 @@ def shrink_violation(v, ctx):
             if not isinstance(c, dict) or 'ops' not in c or not c['ops']:
                 return False
             vs, _ = check_case(c, ctx)
-            return any(w.get('finding') == fid for w in vs)
+            return any(w.get('finding') == fid and w.get('kind') == v.get('kind') for w in vs)
         except Exception:
             return False
     small = vfutil.shrink(v['case'], still, max_steps=150)
     vs, _ = check_case(small, ctx)
     for w in vs:
-        if w.get('finding') == fid:
+        if w.get('finding') == fid and w.get('kind') == v.get('kind'):
             return w
     return v
 
@@ -1227,6 +1402,9 @@ def run(ctx):
         cases += small
         exhaustive = True
         notes.append('small-scope enumeration: %d cases (3 initial apps x 5 registrations x 3 URLs x cold/warm x every injection point of the first/second lookup, every registrar pre-emption point)' % len(small))
+        ifcs = list(enumerate_ifc())
+        cases += ifcs
+        notes.append('interface-change enumeration: %d cases (4 applications x 5 declaration calls adding x 4 removing x lookup before or not x directly / after a clearing registration)' % len(ifcs))
         rpl = list(enumerate_replace())
         cases += rpl
         notes.append('replacement enumeration: %d cases (7 requests through every request interface x 6 run-time replacements x warm / cold / interleaved)' % len(rpl))
@@ -1243,6 +1421,8 @@ def run(ctx):
         mvc = list(enumerate_multiview())
         cases += [mvc[i] for i in sorted(rng.sample(range(len(mvc)), 70))] + mvc[-2:]
         cases += list(enumerate_replace())
+        ifcs = list(enumerate_ifc())
+        cases += [ifcs[i] for i in sorted(rng.sample(range(len(ifcs)), 150))]
         small = list(enumerate_small(limit_points=['probe', 'write', 0, 4, 7, 8, 13, 29]))
         small = [small[i] for i in sorted(rng.sample(range(len(small)), 120))]
         cases += small
@@ -1266,6 +1446,12 @@ def run(ctx):
         by.setdefault(v.get('finding'), []).append(v)
     out_viol = []
     for fid, vs in by.items():
+        # violations that do not depend on a second application built in the same process are reported first: a
+        # process-wide defect (e.g. a module-level memo) can also corrupt the freshly built oracle application
+        own = [w for w in vs if w.get('kind') not in ('response', 'split-response')]
+        if fid is None and own:
+            dist['response_violations_not_listed'] = len(vs) - len(own)
+            vs = own
         vs.sort(key=lambda w: len(json.dumps(w['case'])))
         if fid is None:
             out_viol.append(shrink_violation(vs[0], ctx))
@@ -1292,6 +1478,7 @@ def run(ctx):
             'assumptions': ['CPython: attribute loads/stores, dict get/set and the GIL make each modelled step atomic; threading.Lock is a mutex',
                             'zope.interface adapter registry: registered()/register()/unregister() are atomic and read the current registrations; __sro__ is fixed while serving',
                             'one registrar at a time (configuration actions are executed by a single thread)',
+                            'a cache entry written before the application changed the interfaces of its context class/instances (no registration since) is outside the domain: its key changed meaning (Cfg.KeyFaithful); such warm hits are counted, not judged',
                             'the registrations (which adapter mutations a registration performs) are taken from the real register_view, logged at adapters.register/unregister'],
             'trusted_base': ['extract/c15.py (facts probed by running _find_views / Registry / Configurator of the tree under test)']}
 
@@ -1441,7 +1628,7 @@ def search(ctx):
     """failing-input search on the implementation only (no model): the small-scope enumeration, then random"""
     viol, n = [], 0
     exhaustive = True
-    gens = itertools.chain(enumerate_replace(), enumerate_multiview(), enumerate_ifaces(4, 3), enumerate_small(limit_points=['probe', 'write', 0, 1, 2, 3, 4, 5, 6, 7, 8, 9, 10, 11, 13, 16, 29]),
+    gens = itertools.chain(enumerate_ifc(), enumerate_replace(), enumerate_multiview(), enumerate_ifaces(4, 3), enumerate_small(limit_points=['probe', 'write', 0, 1, 2, 3, 4, 5, 6, 7, 8, 9, 10, 11, 13, 16, 29]),
                            (gen_case(ctx.rng) for _ in range(ctx.n(600, 5000))))
     for case in gens:
         n += 1
